@@ -252,7 +252,7 @@ class Evaluator:
                 yield st, ("fall",)
                 return
             for st2, v in self.expr(s.value, st, fn, depth):
-                yield st2, ("fall",)
+                yield st2, (("raise", "TypeError") if v[0] == "typeerror" else ("fall",))
             return
         if isinstance(s, (ast.Assign, ast.AnnAssign)):
             if isinstance(s, ast.AnnAssign) and s.value is None:
@@ -260,6 +260,12 @@ class Evaluator:
                 return
             targets = s.targets if isinstance(s, ast.Assign) else [s.target]
             for st2, v in self.expr(s.value, st, fn, depth):
+                if v[0] == "typeerror":
+                    # the operation raises where it is evaluated, not where its (never produced) value is used
+                    st3 = st2.copy()
+                    st3.notes = st3.notes + ("TypeError: %s" % v[1],)
+                    yield st3, ("raise", "TypeError")
+                    continue
                 st3 = st2.copy()
                 for t in targets:
                     self.store(t, v, st3)
@@ -269,6 +275,11 @@ class Evaluator:
             fake = ast.BinOp(left=_load(s.target), op=s.op, right=s.value)
             ast.copy_location(fake, s)
             for st2, v in self.expr(fake, st, fn, depth):
+                if v[0] == "typeerror":
+                    st3 = st2.copy()
+                    st3.notes = st3.notes + ("TypeError: %s" % v[1],)
+                    yield st3, ("raise", "TypeError")
+                    continue
                 st3 = st2.copy()
                 self.store(s.target, v, st3)
                 yield st3, ("fall",)
